@@ -16,6 +16,7 @@ Record file_facts := {
   ff_casts : list (string * string);      (* `expr as ty` *)
   ff_statics : list string;
   ff_cfg_keys : list string;
+  ff_cfg_values : list (string * string);   (* key = "value" in cfg / cfg! / cfg_attr / target_feature(enable = ..); ("detected", f) for is_*_feature_detected!(f) *)
   ff_stdpaths : list string;
   ff_trait_impls : list (string * string);   (* (last segment of the trait path, self type) of every trait impl written out in the file *)              (* every path rooted in std / core / alloc, incl. inside macro bodies and arguments *)
   ff_macro_defs : list (string * list string)
